@@ -1,9 +1,13 @@
 /-
   C03 — loader discipline and resolution invariants (resolve.go).
   Property theorems only; helper lemmas: JSV/Proofs/ResInv.lean (invariants threaded through
-  resolveDoc / resolveRefsLoop / resolveRef by open recursion + induction on fuel), ResUri.lean.
+  resolveDoc / resolveRefsLoop / resolveRef by open recursion + induction on fuel), ResRefs.lean,
+  ResKnown.lean, ResMono.lean, ResUri.lean.
 -/
 import JSV.Proofs.ResInv
+import JSV.Proofs.ResRefs
+import JSV.Proofs.ResKnown
+import JSV.Proofs.ResMono
 import JSV.Proofs.ResUri
 namespace JSV.C03
 open JSV Go Go.RInv
@@ -48,6 +52,23 @@ theorem loaded_after_resolve (env : Env) (fuel : Nat) (root : NodeId) (base : Ur
   | zero => simp [resolveDoc] at h
   | succ fuel => exact resolveDocStep_loaded env _ (resolveDoc_spec env fuel) _ _ _ _ _ h
 
+/-! ## Fuel is only a bound
+
+(The other half of `resolve_fuel_enough` — that the number of loader documents + 1 suffices — is not
+proved: it needs the termination arguments of checkStructure / resolveURIs / Schema.all over a tree.) -/
+
+/-- more fuel refines the outcome in the information order (`.fuel` below everything) -/
+theorem resolve_fuel_mono (env : Env) (f f' : Nat) (h : f ≤ f') (root : NodeId) (base : String) :
+    Go.resolve env f root base ⊑ Go.resolve env f' root base :=
+  resolve_mono env f f' h root base
+
+/-- an outcome other than `.fuel` (success, error, panic) is final: it is the outcome for every
+    larger fuel -/
+theorem resolve_fuel_stable (env : Env) (f f' : Nat) (h : f ≤ f') (root : NodeId) (base : String)
+    (hne : Go.resolve env f root base ≠ .fuel) :
+    Go.resolve env f' root base = Go.resolve env f root base :=
+  ((resolve_mono env f f' h root base).resolve_left hne).symm
+
 /-! ## Resolved references point into the store -/
 
 /-- one call of resolveRef: the schema it returns exists (JSON Pointer fragments: because a nil
@@ -74,6 +95,47 @@ theorem resolved_refs_exist_partial (env : Env) (fuel : Nat) (root : NodeId) (ba
   have := this e (List.mem_filter.mp he).1
   exact ⟨this.2.1, this.2.2, this.1⟩
 
+/-- completeness: every schema of `root.all()` that carries a `$ref` has, in the table of the
+    successful resolution, an info object with a target, and the target exists.  (The table is searched
+    with `lookupNat`, i.e. the first entry for the schema — see the counterexample below for why plain
+    membership is not enough.) -/
+theorem resolved_refs_complete (env : Env) (fuel : Nat) (root : NodeId) (base : String) (rs : Resolved)
+    (h : Go.resolve env fuel root base = .ok rs) :
+    ∀ id ∈ allNodes env.st (env.st.size + 2) [root], ∀ n, env.st.get? id = some n → n.ref ≠ "" →
+      ∃ info t, lookupNat id rs.infos = some info ∧ info.resolvedRef = some t ∧
+        (env.st.get? t).isSome = true := by
+  obtain ⟨s, b, d, hs, hd, _, hinfos⟩ := resolve_ok env fuel root base rs h
+  intro id hid n hn hne
+  cases fuel with
+  | zero => simp [resolveDoc] at hs
+  | succ fuel =>
+    obtain ⟨info, t, hl, ht⟩ :=
+      (resolveDocStep_keeps env _ (resolveDoc_keeps env fuel) _ _ _ _ _ hs).2 id hid n hn hne
+    have hok := (resolveDoc_spec env (fuel + 1) _ _ _ _ _ hs).2.1 (infosOk_init env.st)
+    obtain ⟨hdocs, fresh, hfresh⟩ :=
+      resolveDocStep_docs env _ (resolveDoc_docs env fuel) _ _ _ _ _ hs (docsOk_init env)
+    have hknown : d.known.contains id = true :=
+      hdocs root d hd fresh hfresh id (allNodes_sub_checkStructure env.st _ _ root fresh hfresh id hid)
+    refine ⟨info, t, ?_, ht, (hok _ (lookupNat_mem _ _ _ hl)).2.1 t ht⟩
+    rw [hinfos, lookupNat_filter_key id (fun x => d.known.contains x) s.infos hknown]
+    exact hl
+
+/-- the schemas met by `root.all()` are all in the table of the resolution -/
+theorem all_nodes_known (env : Env) (fuel : Nat) (root : NodeId) (base : String) (rs : Resolved)
+    (h : Go.resolve env fuel root base = .ok rs) :
+    ∀ id ∈ allNodes env.st (env.st.size + 2) [root], (lookupNat id rs.infos).isSome = true := by
+  obtain ⟨s, b, d, hs, hd, _, hinfos⟩ := resolve_ok env fuel root base rs h
+  intro id hid
+  cases fuel with
+  | zero => simp [resolveDoc] at hs
+  | succ fuel =>
+    obtain ⟨hdocs, fresh, hfresh⟩ :=
+      resolveDocStep_docs env _ (resolveDoc_docs env fuel) _ _ _ _ _ hs (docsOk_init env)
+    have hmem := allNodes_sub_checkStructure env.st _ (env.st.size + 2) root fresh hfresh id hid
+    have hknown : d.known.contains id = true := hdocs root d hd fresh hfresh id hmem
+    rw [hinfos, lookupNat_filter_key id (fun x => d.known.contains x) s.infos hknown]
+    exact resolveDocStep_table env _ (resolveDoc_keeps env fuel) _ _ _ _ _ hs fresh hfresh id hmem
+
 /-! ## The hypotheses are satisfiable on non-trivial data
 
 `{"$id":"http://a/root.json","allOf":[{"$ref":"other.json#/$defs/x"},{"$ref":"other.json"}]}` with a
@@ -95,6 +157,11 @@ example : ((Go.resolve exEnv 5 0 "").bind fun rs =>
     .ok (["http://a/other.json"], [(0, none), (1, some 4), (2, some 3), (3, none), (4, none)]) := by
   decide +kernel
 
+/-- fuel = nesting depth of loader documents + 1: one unit is not enough here, two are -/
+example : ((Go.resolve exEnv 1 0 "").bind fun rs => .ok rs.log) = .fuel := by decide +kernel
+example : ((Go.resolve exEnv 2 0 "").bind fun rs => .ok rs.log) = .ok ["http://a/other.json"] := by
+  decide +kernel
+
 /-- without a Loader the same resolution fails (and so says nothing) -/
 example : (Go.resolve { exEnv with loader := none } 5 0 "").isOk = false := by decide +kernel
 
@@ -104,10 +171,11 @@ Statement: every `$ref`-bearing schema in the table of a successful resolution h
 Counterexample: a Loader that returns the *same* document object for two URIs (the model's
 assumption "fresh nodes per loader document" is violated).  The second visit appends a second,
 never updated, info entry for schema 3.  What holds without that assumption is
-`resolved_refs_exist_partial` above (every recorded target exists); what is missing for the full
-statement is (a) an Env well-formedness hypothesis (distinct, disjoint loader documents) and
-(b) the fact that `allNodes` (traversal by `children`, sorted keys) visits exactly the schemas that
-`checkStructure` (traversal by `childEntries`) registered. -/
+`resolved_refs_exist_partial` (every recorded target exists) and `resolved_refs_complete` (the first
+table entry — the one Go's map lookup corresponds to — of every `$ref`-bearing schema of `root.all()`
+has a target) above; what is missing for the statement with plain membership and for the schemas of
+the other loaded documents is an Env well-formedness hypothesis (distinct, disjoint loader
+documents). -/
 
 def cxStore : Store := #[
   { id := "http://a/root.json", allOf := some [1, 2] },
